@@ -59,9 +59,13 @@ ContinuationEqual(e, k) == /\ ~e.died /\ ~Has(e, "cont_panic")
                            /\ e.from = k /\ e.errors = <<>>
                            /\ e.hashes = RestHashes(k)
                            /\ e.final = ref.final
+                           /\ e.reopened = ref.final              \* and again after a clean stop and restart
 
 (* ---------------------------------------------------------------- crash-point classes *)
-TornWal == c.tag = "wal.write" /\ c.torn > 0
+\* the hook tore the tmp.data write, or another thread died while the main thread was inside that write(2)
+\* (the kernel then completes only whole pages of it: observed on the real store)
+TornWal == \/ c.tag = "wal.write" /\ c.torn > 0
+           \/ c.main_last = "wal.write" /\ c.tag # "wal.write"
 \* main thread between "batch appended to tmp.data" and "stable pointer moved" (Durability.tla: pc \in {"wal","deliver","ptr"})
 BatchWindow == c.main_last \in {"wal.write", "wal.synced", "stable.ptr.pre"}
 \* main thread between "stable pointer moved" and "context.data flushed" (pc \in {"ctxhead","ctxbody"})
@@ -157,6 +161,8 @@ FinalModuloCandidates(e) == /\ ~e.died /\ ~Has(e, "cont_panic")
                             /\ e.from = r.k /\ e.errors = <<>> /\ e.hashes = RestHashes(r.k)
                             /\ ChainClosed(e.final, ref.final) /\ StateExact(e.final, ref.final)
                             /\ e.final.confirms = ref.final.confirms
+                            /\ ChainClosed(e.reopened, ref.final) /\ StateExact(e.reopened, ref.final)
+                            /\ e.reopened.confirms = ref.final.confirms
 TContinue ==
   /\ Ev("Continue") /\ ph = "recovered"
   /\ \/ r.dev = "none" /\ ContinuationEqual(E, r.k)
